@@ -50,6 +50,14 @@ def build(case):
         fore.scale(arr)
     obs = [(0, 0)] * case["n"]
     cat = S.catalog(region, obs=obs)
+    if case.get("below_min") and case["n"] <= 3000:
+        # the observed catalog is not cut at the forecast's first magnitude edge: every third event lies below it.  n_obs is the
+        # number of events in the observed catalog (the N-test does not grid the catalog)
+        from csep.core.catalogs import CSEPCatalog
+        evs = [list(S.event(i, 0, 0)) for i in range(case["n"])]
+        for i in range(0, len(evs), 3):
+            evs[i][5] = S.edges[0] - S.hm / 2
+        cat = CSEPCatalog(data=[tuple(e) for e in evs], region=region, name="obs")
     return S, fore, cat
 
 
@@ -244,6 +252,8 @@ def cases(draw):
          "mean_factors": draw(st.lists(st.floats(0.2, 5).map(lambda x: float("%.3g" % x)), max_size=4, unique=True))}
     if kind == "nbd":
         c["var_factor"] = 1 + float("%.4g" % 10 ** draw(st.floats(-3, 4)))
+    if draw(st.integers(0, 3)) == 0:
+        c["below_min"] = True
     return c
 
 
